@@ -45,8 +45,19 @@ def build(cfg, seed):
     labels = np.zeros(n, dtype=int)
     err_unit = u.m / u.s if units == "err_ms" else u.km / u.s
     ef = 1000.0 if units == "err_ms" else 1.0
+    t_ref_val = float(t.min())
     if no == 0:
-        data = tj.RVData(Time(t, format="mjd", scale="tcb"), y * u.km / u.s, sig * ef * err_unit)
+        kwd = {}
+        if cfg.get("tref") == "utc":
+            # explicit reference epoch given in another time scale than the internal barycentric one
+            tr = Time(pb.T0 - 2.5, format="mjd", scale="utc")
+            kwd["t_ref"] = tr
+            t_ref_val = float(tr.tcb.mjd)
+        elif cfg.get("tref") == "tcb":
+            tr = Time(pb.T0 + 4.25, format="mjd", scale="tcb")
+            kwd["t_ref"] = tr
+            t_ref_val = float(tr.tcb.mjd)
+        data = tj.RVData(Time(t, format="mjd", scale="tcb"), y * u.km / u.s, sig * ef * err_unit, **kwd)
     else:
         data = []
         bounds = np.linspace(0, n, no + 2).astype(int)
@@ -57,7 +68,7 @@ def build(cfg, seed):
             labels[idx] = k
             data.append(tj.RVData(Time(t[idx], format="mjd", scale="tcb"), y[idx] * u.km / u.s, sig[idx] * ef * err_unit))
     dec = dict(sig_v=sig_v[:pt_], off_sig=off_sig[:no], sigma_K0=25.0, P0=365.25, vf=vf, Pf=(1 * u.day).to_value(Pu), jitter=cfg["jitter"])
-    return model, prior, data, dict(t=t, y=y, sig=sig, labels=labels, t_ref=float(t.min())), dec
+    return model, prior, data, dict(t=t, y=y, sig=sig, labels=labels, t_ref=t_ref_val), dec
 
 
 def ref_lnprior(dec, th, x, pt_, no):
@@ -223,6 +234,11 @@ def configs(quick):
         if quick and (pt_ + no + (jit == "sampled") + ["default", "P_yr", "prior_ms", "err_ms"].index(un)) % 3 != 0:
             continue
         out.append(dict(poly_trend=pt_, n_offsets=no, jitter=jit, units=un, n_init=5 if (pt_ + no) % 2 else 1))
+    for pt_ in (1, 2, 3):
+        for tref in ("utc", "tcb"):
+            if quick and (pt_ == 3 or (pt_ == 1 and tref == "tcb")):
+                continue
+            out.append(dict(poly_trend=pt_, n_offsets=0, jitter="constant", units="default", n_init=1, tref=tref))
     return out
 
 
@@ -231,7 +247,7 @@ def main():
         PID, "exploration",
         "configurations poly_trend 1..3 x offsets 0..2 (surveys interleaved in time) x jitter {constant, sampled} x units {all default; "
         "period prior in yr; K / trend / offset / jitter priors in m/s with data in km/s; errors in another unit than the velocities} "
-        "(72; quick: a 24-configuration third): setup_mcmc is called with 1 or 5 samples (columns in foreign units), the model's "
+        "(72; quick: a 24-configuration third) plus explicit reference epochs given in UTC / TCB: setup_mcmc is called with 1 or 5 samples (columns in foreign units), the model's "
         "model_rv / ln_likelihood / logp(jacobian=False) are compiled once with RVs replaced by values and evaluated on 4 theta x 3 "
         "linear-parameter points: model_rv = M(theta) x (reference Kepler solver and design matrix), ln_likelihood = ln N(y|model, "
         "sigma^2+s^2), differences of the log-density = differences of declared prior + Gaussian term, mcmc_init = median-period sample "
